@@ -30,7 +30,16 @@ pub(super) fn execute_skip<'a, S: GraphSnapshot + 'a>(
         Err(err) => return PlanIterator::Dynamic(Box::new(std::iter::once(Err(err)))),
     };
     let input_iter = execute_plan(snapshot, input, params);
-    PlanIterator::Dynamic(Box::new(input_iter.skip(skip)))
+    // Skip the first `skip` rows. An error is not a row: it is never skipped.
+    let mut remaining = skip;
+    PlanIterator::Dynamic(Box::new(input_iter.filter(move |result| {
+        if result.is_ok() && remaining > 0 {
+            remaining -= 1;
+            false
+        } else {
+            true
+        }
+    })))
 }
 
 pub(super) fn execute_limit<'a, S: GraphSnapshot + 'a>(
